@@ -372,6 +372,12 @@ fn parse_constant<S: TexlangState, const RADIX: i32>(
         };
         let lsd = match lsd_or {
             None => {
+                // TeX.2021.444-445: the token that ends the digits is looked at exactly once.
+                // One optional space is consumed and anything else is put back. Reading the
+                // stream again here would expand a token that \noexpand has just protected.
+                if started && matches!(next.value(), token::Value::Space(_)) {
+                    return Ok(result);
+                }
                 stream.back(next);
                 break;
             }
@@ -403,8 +409,8 @@ fn parse_constant<S: TexlangState, const RADIX: i32>(
         };
         let got = stream.peek()?;
         stream.error(parse::Error::new(expected, got, guidance))?;
+        super::OptionalSpace::parse(stream)?;
     }
-    super::OptionalSpace::parse(stream)?;
     Ok(result)
 }
 
